@@ -118,5 +118,5 @@ Proof.
   split; [|split; [|reflexivity]].
   - unfold Inv. cbn. split; [constructor|]. split; [repeat constructor; intros []|].
     split; [repeat constructor; intros []|]. intros s [].
-  - intros x. unfold abs. cbn. destruct (Nat.eqb 0 x); cbn; intros H; discriminate H.
+  - intros x. unfold abs. cbn. destruct x; cbn; intros H; discriminate H.
 Qed.
